@@ -8,6 +8,11 @@ NUM_RULE = ("rapidcheck generates a fixed-length vector of 64-bit entropy words 
             "assignment of EVERY registered parameter (independently; one third log-scaled over 1e-3..1e3, admissibility by construction) "
             "and a point; the library is evaluated on a fresh handle and compared with nested forward-mode AD in binary128 of the "
             "documented fields under the textbook operator, tolerance |lib-ref| <= 64*eps(Scalar)*mag. "
+            "Points: a box of a few wavelengths, exact zeros, far/tiny values, negative and zero times, and lattice points (multiples of 1 and of L: mesh nodes); "
+            "one wave number in five is a small whole number. Each case: decoy handle of the same solution in the other registry; handle spelled like the solution; "
+            "every fourth case in a populated registry (bystander of the same type, re-initialisation while the bystander is selected, select/init/select-back before the second phase, "
+            "bystander verified untouched); evaluators in spec order rotated per case; in double, every C entry point of that arity against the C++ overload bit for bit; "
+            "one case in eight with errno = EDOM and sticky FP status flags raised beforehand; then all parameters x 1.0625 on the same handle and everything again at the same point. "
             "A case is non-trivial when no parameter is 0 or 1, no two parameters coincide (relative gap > 1e-9) and all coordinates are "
             "distinct and non-zero; distinct_nontrivial counts distinct hashes of (solution, scalar type, all parameter bits, point bits) "
             "of such cases; evaluations counts (case, evaluator) comparisons.")
@@ -88,6 +93,7 @@ def hist_check(pid, cases_q, cases_t, rule, variant="exc", maxsize_q=100, maxsiz
 
 
 HIST_GEN = ("rapidcheck generates a vector of raw operation records (0..maxsize of them); each record is decoded against the CURRENT model state "
+            "(one init in four spells the solution name with case changes and runs of dashes/blanks; unknown names are fixed strings or derived from valid ones; one valid set in eight is a one-ulp nudge) "
             "(handle slots, parameter/vector/evaluator indices modulo what exists, values from a magnitude-diverse decoder incl. +-0, denormals, 1e+-300, the marker) "
             "so every generated and every shrunk history is valid; the library is driven step by step next to a reference model and compared after every step; ")
 CHECKS["C10"] = hist_check("C10", 48000, 192000, HIST_GEN + "C10: every provided evaluator call is repeated and re-evaluated on a fresh handle holding the same parameters (bit equality), and the "
@@ -95,7 +101,7 @@ CHECKS["C10"] = hist_check("C10", 48000, 192000, HIST_GEN + "C10: every provided
                            "and a select of another handle or >= 2 inits in between. distinct = distinct decoded histories; evaluations = executed steps.")
 CHECKS["C11"] = hist_check("C11", 128000, 768000, HIST_GEN + "C11: set/get/init_param/purge/sanity/display/set_vec/get_vec against a per-handle map model, valid and invalid names, evaluations compared with a "
                            "fresh handle that received only the final values. Non-trivial: an invalid-name operation, a purge or init_param, and a valid set in one history.")
-CHECKS["C12"] = hist_check("C12", 24000, 144000, HIST_GEN + "C12: init/select/re-init over 7 verbatim handle strings (incl. empty, blanks, case twins) in both precisions; after EVERY step every handle of both "
+CHECKS["C12"] = hist_check("C12", 24000, 144000, HIST_GEN + "C12: init/select/re-init over verbatim handle strings (10 fixed ones incl. empty, blanks, case twins, 300 characters, ' : ' inside, a control character; handles spelled like catalogue names; look-alikes run1/run01/'run 1'/h2/h10) in both precisions; after EVERY step every handle of both "
                            "registries is selected in turn and compared with the model (isolation), masa_list_mms is parsed and compared. Non-trivial: >= 3 inits, a re-init of a live handle and two handles of one type.")
 CHECKS["C15"] = hist_check("C15", 48000, 384000, HIST_GEN + "C15: evaluator overloads outside the selected solution's capability set must return exactly -1.33, print (S)MASA ERROR, not throw, and leave every "
                            "parameter unchanged. Non-trivial: >= 3 such calls in one history.")
@@ -160,10 +166,10 @@ CHECKS["C16"] = c16_check()
 
 
 def c19_check():
-    rule = ("four detectors over API histories decoded by the same model-based interpreter (every public entry point incl. re-init, vectors of changing length, the C array interface with *n from 0 to the buffer length through exact-size heap buffers, "
+    rule = ("five detectors over API histories decoded by the same model-based interpreter (every public entry point incl. re-init, vectors of changing length, the C array interface with *n from 0 to the buffer length through exact-size heap buffers, "
             "masa_get_name into exact-size buffers, misuse steps): (1) libFuzzer, coverage-guided, 20-byte operation records, empty and seeded corpora, ASan+UBSan, LeakSanitizer after every iteration (registries emptied first, so anything still allocated is unreachable); "
             "(2) rapidcheck histories under ASan+UBSan, each serialised before it runs; (3) live-byte accounting with replaced operator new/delete: repeating a masa_init leaves the live bytes unchanged and emptying the registries returns to the baseline; "
-            "(4) Valgrind memcheck (uninitialised reads, definite/indirect leaks) over saved histories. Non-trivial: a handle re-initialised and a vector/array length changed in one history (or >= 2 types with a re-used handle for the accounting). "
+            "(4) Valgrind memcheck (uninitialised reads, definite/indirect leaks) over saved histories; (5) process shutdown: saved histories re-run in the ASan build with an atexit handler registered before the first MASA call, registries left populated, the handler walks both registries. Non-trivial: a handle re-initialised and a vector/array length changed in one history (or >= 2 types with a re-used handle for the accounting). "
             "evaluations = executed steps; only crash-/leak- artifacts, sanitizer aborts, accounting mismatches and Valgrind errors are violations.")
     def workers(tier, seed, work):
         quick = tier == "quick"
